@@ -43,7 +43,8 @@ class ReplayDiverged(Exception):
 class SimThread:
     __slots__ = ('index', 'thread', 'gate', 'state', 'join_target', 'deadline', 'wake_at', 'pending_exc',
                  'pending_delay', 'events', 'ident', 'budget', 'priority', 'frozen_until', 'blocked_on',
-                 'async_landed', 'name', 'op_born', 'zombie', 'done_at', 'last_site', 'sent_site', 'student_events', 'line_events')
+                 'async_landed', 'name', 'op_born', 'zombie', 'done_at', 'last_site', 'sent_site', 'student_events', 'line_events',
+                 'reported_stopped')
 
     def __init__(self, index, thread):
         self.index = index
@@ -71,6 +72,7 @@ class SimThread:
         self.sent_site = None
         self.student_events = 0
         self.line_events = 0
+        self.reported_stopped = False    # is_alive() says False although the thread still runs (see Scheduler.join)
 
 
 class Scheduler:
@@ -413,6 +415,13 @@ class Scheduler:
             site = (me.index, 'J', 'threading.py', 'join', 0, self.nevents, me.events)
             self.async_landings.append(site)
             me.async_landed.append(site)
+            if target.state != 'done':
+                # CPython 3.12's Thread._wait_for_tstate_lock has an `except:` branch meant for an exception that
+                # arrives after lock.acquire() succeeded: `if lock.locked(): lock.release(); self._stop()`.  When the
+                # exception arrives after the acquire timed out, the lock is "locked" all the same -- by the thread
+                # being waited for -- so that thread is marked as stopped although it keeps running: from then on
+                # its is_alive() is False.  (Observed with the real interpreter; modelled here.)
+                target.reported_stopped = True
             raise (exc() if isinstance(exc, type) else exc)
 
     def sleep(self, seconds):
@@ -490,7 +499,7 @@ def _sim_is_alive(self):
     if sched is not None:
         st = sched.by_thread.get(self)
         if st is not None:
-            return st.state != 'done'
+            return st.state != 'done' and not st.reported_stopped
     return _orig_is_alive(self)
 
 
